@@ -85,6 +85,13 @@ def check_lookups(rep, prog):
         covered = all((ch.op != "getitem" and len(ch.args) >= 3) or any(ch in list(walk(t.b)) for t in tops) for ch in chains) if chains else True
         rep.check(covered and bool(chains), rule, "%s: every chip-data lookup has a fallback to the raw numbers" % fn, PD + "." + fn, "except KeyError",
                   "%s has a chip-data lookup without a fallback: missing data raises instead of showing the raw numbers" % fn)
+    # register name and register address fall back independently: a register whose instance has no address entry keeps its name
+    if len(rgi) == 2:
+        ex = [{x for x in walk(i[1]) if isinstance(x, Sym) and x.kind == "exc"} for i in rgi]
+        rep.check(bool(ex[0]) and bool(ex[1]) and not (ex[0] & ex[1]), rule, "get_reg_data: name and address look-ups have separate fallbacks",
+                  PD + ".get_reg_data", "except KeyError", "the register name and the register address are looked up under one "
+                  "try/except: when only the address of this instance is missing the known register name is replaced by the raw "
+                  "id/instance text as well")
     hs = [e for e in I.events if e.kind == "handler" and e.func.startswith(PD + ".get_")]
     rep.check(not hs or all(h.data[1] in ("KeyError", "LookupError", "(KeyError, IndexError)", "(KeyError, IndexError, TypeError)", "Exception") for h in hs), rule,
               "fallback handlers catch KeyError", PD, "except KeyError", "fallback handlers catch %s" % sorted({h.data[1] for h in hs}))
